@@ -9,36 +9,37 @@ namespace Unifex.Stream
 open Unifex.Calc (Outcome Fn)
 variable (specs : Nat → SrcSpec)
 
-/-- **the values a stream signals are, in order, a prefix of what it would deliver without any stop request** —
-    for every stream expression without take_until, every script and every call respecting the protocol -/
-theorem deliver_phi : ∀ fuel, PhiOK specs (deliver specs fuel) := by
+/-- **all three contracts hold for the evaluator at every fuel**: the protocol contract (`deliver_ok`), the value
+    contract (the values a node signals are, in order, a prefix of what it would deliver without any stop
+    request) and the fuel contract — for every stream expression, every script, every legal call -/
+theorem deliver_all : ∀ fuel, AllOK specs (deliver specs fuel) := by
   intro fuel
   induction fuel with
   | zero =>
-    intro c op hg hl hsi hnt
-    exact ⟨hnt, hsi, by simp [deliver], fun _ => List.prefix_refl _⟩
+    refine ⟨deliver_ok specs 0, ?_, ?_⟩
+    · intro c op hg hl hsi hnt
+      exact ⟨hnt, hsi, by simp [deliver], fun _ => List.prefix_refl _⟩
+    · intro c op hnt
+      exact ⟨hnt, Nat.le_refl _, by simp [deliver]⟩
   | succ n ih =>
-    intro c op hg hl hsi hnt
-    have hrec := deliver_ok specs n
-    cases op with
-    | leaf k st => simpa [deliver] using leaf_phi specs c k st hl hsi
-    | un k ch => simpa [deliver] using un_phi specs _ hrec ih c k ch hg hl hsi hnt
-    | filter p ch s => simpa [deliver] using filter_phi specs _ hrec ih c p ch s hg hl hsi hnt
-    | stopImm ch st => simpa [deliver] using stopImm_phi specs _ hrec ih c ch st hg hl hsi hnt
-    | takeUntil a t st => exact absurd hnt (by simp [Op.NoTake])
+    refine ⟨deliver_ok specs (n + 1), ?_, ?_⟩
+    · intro c op hg hl hsi hnt
+      cases op with
+      | leaf k st => simpa [deliver] using leaf_phi specs c k st hl hsi
+      | un k ch => simpa [deliver] using un_phi specs _ ih.ok ih.phi c k ch hg hl hsi hnt
+      | filter p ch s => simpa [deliver] using filter_phi specs _ ih.ok ih.phi c p ch s hg hl hsi hnt
+      | stopImm ch st => simpa [deliver] using stopImm_phi specs _ ih.ok ih.phi c ch st hg hl hsi hnt
+      | takeUntil a t st => simpa [deliver] using (takeUntil_contracts specs _ ih c a t st hg hl hsi hnt).1
+    · intro c op hnt
+      cases op with
+      | leaf k st => simpa [deliver] using leaf_need specs c k st
+      | un k ch => simpa [deliver] using un_need specs _ ih.need c k ch hnt
+      | filter p ch s => simpa [deliver] using filter_need specs _ ih.need c p ch s hnt
+      | stopImm ch st => simpa [deliver] using stopImm_need specs _ ih.need c ch st hnt
+      | takeUntil a t st => simpa [deliver] using takeStep_need specs _ ih.need c a t st hnt
 
-theorem deliver_need : ∀ fuel, NeedOK specs (deliver specs fuel) := by
-  intro fuel
-  induction fuel with
-  | zero => intro c op hnt; exact ⟨hnt, Nat.le_refl _, by simp [deliver]⟩
-  | succ n ih =>
-    intro c op hnt
-    cases op with
-    | leaf k st => simpa [deliver] using leaf_need specs c k st
-    | un k ch => simpa [deliver] using un_need specs _ ih c k ch hnt
-    | filter p ch s => simpa [deliver] using filter_need specs _ ih c p ch s hnt
-    | stopImm ch st => simpa [deliver] using stopImm_need specs _ ih c ch st hnt
-    | takeUntil a t st => exact absurd hnt (by simp [Op.NoTake])
+theorem deliver_phi (fuel : Nat) : PhiOK specs (deliver specs fuel) := (deliver_all specs fuel).phi
+theorem deliver_need (fuel : Nat) : NeedOK specs (deliver specs fuel) := (deliver_all specs fuel).need
 
 /-- may the consumer still pull? -/
 def Root.canPull (rt : Root) : Prop := (rt.ph = .idle ∧ rt.ended = false) ∨ rt.ph = .nexting
@@ -385,6 +386,14 @@ theorem runEvents_phi (phi0 : List Nat) : ∀ (evs : List REv) (rt : Root), RInv
       exact ih _ h hp
 
 
+theorem Op.noTake_all (op : Op) : op.NoTake := by
+  induction op with
+  | leaf k st => trivial
+  | un k c ih => exact ih
+  | filter p c s ih => exact ih
+  | stopImm c st ih => exact ih
+  | takeUntil a t st iha iht => exact ⟨iha, iht⟩
+
 /-- no take_until in the expression -/
 def SExpr.NoTake : SExpr → Prop
   | .un _ s => s.NoTake
@@ -393,16 +402,17 @@ def SExpr.NoTake : SExpr → Prop
   | .takeUntil _ _ => False
   | _ => True
 
-theorem connect_noTake (e : SExpr) (h : e.NoTake) : (connect e).NoTake := by
-  induction e with
-  | range lo hi => trivial
-  | single v => trivial
-  | neverS => trivial
-  | src i => trivial
-  | un k s ih => exact ih h
-  | filter p s ih => exact ih h
-  | stopImmediately s ih => exact ih h
-  | takeUntil s t ihs iht => exact absurd h (by simp [SExpr.NoTake])
+/-- the sequence a pipeline delivers when no stop request ever arrives (for take_until: the source's — the trigger
+    is a stop request) -/
+def SExpr.free : SExpr → List Nat
+  | .range lo hi => List.range' lo (hi - lo)
+  | .single v => [v]
+  | .neverS => []
+  | .src i => (scriptDen (specs i).nexts).1
+  | .un k s => (k.den (s.free, none)).1
+  | .filter p s => (filterDen p s.free none).1
+  | .stopImmediately s => s.free
+  | .takeUntil s _ => s.free
 
 theorem connect_SI2 (e : SExpr) : SI2 (connect e) := by
   induction e with
@@ -425,24 +435,35 @@ theorem filterDen_fst (p : Pred) (l : List Nat) (t t' : Option Nat) : (filterDen
   | nil => rfl
   | cons x xs ih => simp only [filterDen]; cases p.app x <;> simp [ih]
 
-/-- for an expression without take_until, `Op.phi` of the initial state is the sequence of the specification -/
-theorem connect_phi (e : SExpr) (h : e.NoTake) : (connect e).phi specs = (e.den specs false).1 := by
+theorem connect_phi_free (e : SExpr) : (connect e).phi specs = e.free specs := by
   induction e with
-  | range lo hi => simp [connect, Op.phi, leafDenK, leafDen, SExpr.den, LeafSt.init]
-  | single v => simp [connect, Op.phi, leafDenK, leafDen, SExpr.den, LeafSt.init]
-  | neverS => simp [connect, Op.phi, leafDenK, leafDen, SExpr.den, LeafSt.init]
-  | src i => simp [connect, Op.phi, leafDenK, leafDen, SExpr.den, LeafSt.init]
+  | range lo hi => simp [connect, Op.phi, leafDenK, leafDen, SExpr.free, LeafSt.init]
+  | single v => simp [connect, Op.phi, leafDenK, leafDen, SExpr.free, LeafSt.init]
+  | neverS => simp [connect, Op.phi, leafDenK, leafDen, SExpr.free, LeafSt.init]
+  | src i => simp [connect, Op.phi, leafDenK, leafDen, SExpr.free, LeafSt.init]
+  | un k s ih => simp [connect, Op.phi, SExpr.free, ih]
+  | filter p s ih => simp [connect, Op.phi, SExpr.free, ih]
+  | stopImmediately s ih => simpa [connect, Op.phi, SExpr.free, StopImmSt.init] using ih
+  | takeUntil s t ihs iht => simpa [connect, Op.phi, SExpr.free] using ihs
+
+/-- without take_until, `free` is the sequence of the specification `den` (no stop) -/
+theorem free_eq_den (e : SExpr) (h : e.NoTake) : e.free specs = (e.den specs false).1 := by
+  induction e with
+  | range lo hi => rfl
+  | single v => rfl
+  | neverS => rfl
+  | src i => rfl
   | un k s ih =>
-    simp only [connect, Op.phi, SExpr.den, ih h]
+    simp only [SExpr.free, SExpr.den, ih h]
     cases k with
     | transform f => exact mapDen_fst f _ _ _
     | nextAdapt f => exact mapDen_fst f _ _ _
     | typeErase => rfl
     | cleanupAdapt c => rfl
   | filter p s ih =>
-    simp only [connect, Op.phi, SExpr.den, ih h]
+    simp only [SExpr.free, SExpr.den, ih h]
     exact filterDen_fst p _ _ _
-  | stopImmediately s ih => simpa [connect, Op.phi, SExpr.den, StopImmSt.init] using ih h
+  | stopImmediately s ih => simpa [SExpr.free, SExpr.den] using ih h
   | takeUntil s t ihs iht => exact absurd h (by simp [SExpr.NoTake])
 
 end Unifex.Stream
